@@ -96,14 +96,18 @@ Definition state_of (d : decl) (pre : list item) : pst :=
      p_m := map (state_m pre) (seq 0 (length (d_multis d)));
      p_t := map (state_t pre) (seq 0 (length (d_toggles d))) |}.
 
-(* when may item `it` follow the items `pre` *)
+(* when may item `it` follow the items `pre`: exactly when applying it to the state after `pre` succeeds *)
+Definition tog_okb (pre : list item) (it : item) (j : nat) (t : tdecl) : bool :=
+  match item_effect it j with
+  | TNone => true
+  | TInc _ => negations j pre =? 0
+  | TRev => t_rev t && negb ((0 <? occurrences j pre) && (negations j pre =? 0))
+  end.
 Definition item_sem (d : decl) (pre : list item) (it : item) : bool :=
   match it with
   | ItOpt i _ _ => negb (nonempty_l (opt_values i pre))
-  | ItBundle ts => forallb (fun t => negations t pre =? 0) ts
-  | ItLong t => negations t pre =? 0
-  | ItNo t => match nth_error (d_toggles d) t with Some td => t_rev td | None => true end && (occurrences t pre =? 0)
-  | _ => true
+  | ItMulti _ _ _ | ItPos _ => true
+  | _ => forallb (fun p => tog_okb pre it (fst p) (snd p)) (combine (seq 0 (length (d_toggles d))) (d_toggles d))
   end.
 Fixpoint items_sem (d : decl) (pre its : list item) : bool :=
   match its with [] => true | it :: r => item_sem d pre it && items_sem d (pre ++ [it]) r end.
